@@ -22,6 +22,7 @@ RULE = (
     "each recipe evaluated by NumPy and by cubed under >=2 configurations of executor x optimize_graph. "
     "A case (recipe, configuration) is non-trivial when some leaf has more than one block and cubed "
     "returned values that were compared; distinct = distinct hash of (recipe, configuration)."
+    " Plus a bounded-exhaustive parameter sweep: single-operation recipes enumerating the discrete parameters of the public functions for 1-3 dimensions (every ordered choice of tensordot contraction axes; per-dimension {all, reversed, strided, reversed+strided, integer} indexing with a new axis at every position; all axis permutations, moveaxis pairs, flip/reduction axis subsets x keepdims, roll, arg-reductions, scans, diff, repeat, take, unstack, concat/stack/expand_dims positions, pad widths, tril/triu offsets, vecdot axes: 857 cases), geometry drawn at random, each run optimised and unoptimised."
 )
 ASSUMPTIONS = [
     "NumPy 2.x evaluation of the recipe is the reference; candidates NumPy itself rejects are out of scope",
@@ -35,7 +36,7 @@ PER_SHARD = {"quick": 110, "thorough": 700}
 def shards(tier, seed):
     return [
         {"n": PER_SHARD[tier], "maxdim": 9 if tier == "quick" else 13, "depth": 4 if tier == "quick" else 7,
-         "watchdog_s": TIMEOUT[tier] - 30}
+         "watchdog_s": TIMEOUT[tier] - 30, "sweep_of": 16 if tier == "quick" else 4}
         for _ in range(NSHARDS[tier])
     ]
 
@@ -79,6 +80,7 @@ def finalize(tier, merged):
     return {
         "rule": RULE,
         "floors": [
+            ("parameter-sweep cases run (of 857 enumerated)", c.get("param_sweep_cases", 0), 700),
             ("outputs compared with NumPy", c.get("outputs_compared", 0), floor),
             ("distinct public functions exercised", len(merged["hist"].get("ops", {})), 100),
         ],
